@@ -221,6 +221,9 @@ package varmq
 //@   ghost after call invoke.DequeueWithAckId: $pf := false
 //@   assert [release-with-fresh-count] before call varmq.worker.releaseWaiters: $pf
 //@   ghost before call varmq.worker.releaseWaiters: assume forall k int {@sumLen(w.queues.Manager.items, k)} :: 0 <= k && k <= len(w.queues.Manager.items) ==> @sumLen(w.queues.Manager.items, k) <= MaxInt
+// job.ackId is a plain field handed from the dispatcher to the pool goroutine through the channel send: the dispatcher writes it only on a job
+// it has claimed (status already Processing), never on an entry it is about to skip (whose handle may be running Close -> ack() concurrently)
+//@   assert [race-ackid-after-claim] before call invoke.setAckId: $jstatus(j) == processing
 //@   assert [not-closed]      before call invoke.changeStatus: $jstatus(j) != closed
 //@   assert [bookkeeping]     before call varmq.worker.sendToNextChannel: $jstatus(j) == processing && $jackid(j) == ackId && w.curProcessing == old(w.curProcessing) + 1
 //@   assert [ackid-of-this]   before call varmq.worker.sendToNextChannel: $impl(IAcknowledgeable, queue) || ackId == ""
